@@ -174,7 +174,8 @@ def run(ctx, chk, tier):
                 inner = inner.args[0]
                 r = roles_of(inner, env)
                 from ..terms import Star
-                want_shape = Tup([Star(add_shapes()), Const(2)])
+                sh_tail = App("getitem", (App("shape", (TH,)), App("slice", (Const(1), Const(None), Const(None)))))
+                want_shape = Tup([Star(sh_tail), Star(App("shape", (AL,))), Const(2)])
                 tgt_ok = target.key == want_shape.key
                 if r is None:
                     chk.unknown("R13.7", "axis roles of %s not inferable" % show(inner, 160))
